@@ -420,10 +420,13 @@ func tableConc(tr *tracer.T, rng *rand.Rand, nUpd int) {
 	var started, completed atomic.Int64
 	var mu sync.Mutex
 	var revs []map[string]any
+	// one behaviour in three contains a GIANT transaction (11 pairs of 1.9 MiB = 21 MiB in one log entry): readers
+	// then also ask for the keys of its pairs
+	giant := rng.Intn(3) == 0
 	stop := make(chan struct{})
 	var wg sync.WaitGroup
 	readOp := func(k []byte) m.Op { return m.Op{T: "range", K: k} }
-	for g := 0; g < 3; g++ {
+	for g := 0; g < 5; g++ {
 		wg.Add(1)
 		go func(g int) {
 			defer wg.Done()
@@ -434,16 +437,27 @@ func tableConc(tr *tracer.T, rng *rand.Rand, nUpd int) {
 					return
 				default:
 				}
-				switch lr.Intn(3) {
-				case 0:
+				x := lr.Intn(5)
+				if giant && g >= 3 {
+					// these two readers never take a Pebble snapshot (which waits for a large commit in progress):
+					// they keep reading WHILE the giant transaction is being applied
+					x = 3
+				}
+				switch {
+				case x < 3:
 					c := m.Cmd{T: "TXN"}
-					if lr.Intn(2) == 0 {
+					switch lr.Intn(3) {
+					case 0:
 						c.Cmp = []m.Cmp{{K: keys[0], Res: "NOT_EQUAL", HasVal: true, Val: []byte{250}}}
+					case 1:
+						// a predicate that every update FLIPS (values alternate between < 100 and > 100): the branch
+						// taken and the values it reads must come from one and the same content
+						c.Cmp = []m.Cmp{{K: keys[lr.Intn(len(keys))], Res: "LESS", HasVal: true, Val: []byte{100}}}
 					}
 					for _, k := range keys {
 						c.Succ = append(c.Succ, readOp(k))
 					}
-					c.Fail = []m.Op{readOp(keys[0])}
+					c.Fail = []m.Op{readOp(keys[0]), readOp(keys[len(keys)-1])}
 					req := &regattapb.TxnRequest{Table: []byte("tbl")}
 					t := c.TxnPB()
 					req.Compare, req.Success, req.Failure = t.Compare, t.Success, t.Failure
@@ -457,8 +471,14 @@ func tableConc(tr *tracer.T, rng *rand.Rand, nUpd int) {
 					mu.Lock()
 					revs = append(revs, map[string]any{"ev": "rotxn_at", "rep": 1, "c": c, "ok": x.Succeeded, "rs": m.RespsFromPB(x.Responses), "s": s0, "e": e0})
 					mu.Unlock()
-				case 1:
+				case x == 3:
 					op := fullRange()
+					if giant && lr.Intn(2) == 0 {
+						// only the keys of the giant transaction's pairs: all of them or none
+						op = m.Op{T: "range", K: []byte("zbig"), End: m.End{Has: true, B: []byte("zbih")}, KeysOnly: true}
+					} else if giant {
+						op = m.Op{T: "range", K: []byte{0}, End: m.End{Has: true, B: []byte("z")}}
+					}
 					s0 := completed.Load()
 					res, err := r.f.Lookup(op.RangePB())
 					e0 := started.Load()
@@ -470,6 +490,9 @@ func tableConc(tr *tracer.T, rng *rand.Rand, nUpd int) {
 					mu.Unlock()
 				default:
 					op := fullRange()
+					if giant {
+						op = m.Op{T: "range", K: []byte{0}, End: m.End{Has: true, B: []byte("z")}}
+					}
 					s0 := completed.Load()
 					res, err := r.f.Lookup(fsm.IteratorRequest{RangeOp: op.RangePB()})
 					if err != nil {
@@ -488,7 +511,7 @@ func tableConc(tr *tracer.T, rng *rand.Rand, nUpd int) {
 	// the writer: every update rewrites ALL keys to one new value inside a single transaction,
 	// so every state that ever exists has all keys equal
 	for u := 0; u < nUpd; u++ {
-		v := []byte{byte(1 + u%200)}
+		v := []byte{byte((u%2)*100 + 1 + (u/2)%99)} // alternately below and above 100
 		c := m.Cmd{T: "TXN"}
 		for _, k := range keys {
 			c.Succ = append(c.Succ, m.Op{T: "put", K: k, V: v})
@@ -496,22 +519,45 @@ func tableConc(tr *tracer.T, rng *rand.Rand, nUpd int) {
 		if u%7 == 3 { // sometimes delete everything but the first key, in the same transaction
 			c.Succ = append(c.Succ, m.Op{T: "del", K: keys[1], End: m.End{Has: true, B: []byte{0}}})
 		}
+		if giant && u == nUpd/2 {
+			for i := 0; i < 11; i++ {
+				big := make([]byte, 1900*1024)
+				for j := 0; j < len(big); j += 4096 {
+					big[j] = byte(i + j)
+				}
+				c.Succ = append(c.Succ, m.Op{T: "put", K: []byte(fmt.Sprintf("zbig%02d", i)), V: big})
+			}
+		}
 		started.Add(1)
 		r.update(tr, []logEntry{{I: uint64(u + 2), LI: -1, C: c}})
 		completed.Add(1)
 	}
 	close(stop)
 	wg.Wait()
-	// keep the validated set bounded: the reads that overlapped an update first
-	n := 0
+	// keep the validated set bounded WITHOUT losing an observation: reads with the same request, the same answer and
+	// the same window are one observation (the verdict depends on nothing else); the distinct ones that overlapped an
+	// update come first
+	seen := map[string]bool{}
+	var distinct []map[string]any
 	for _, e := range revs {
-		if e["s"].(int64) != e["e"].(int64) {
+		b, err := json.Marshal(e)
+		if err != nil {
+			die("marshal: %v", err)
+		}
+		if !seen[string(b)] {
+			seen[string(b)] = true
+			distinct = append(distinct, e)
+		}
+	}
+	n := 0
+	for _, e := range distinct {
+		if e["s"].(int64) != e["e"].(int64) && n < 8000 {
 			tr.Emit(e)
 			n++
 		}
 	}
-	for _, e := range revs {
-		if n >= 400 {
+	for _, e := range distinct {
+		if n >= 8400 {
 			break
 		}
 		if e["s"].(int64) == e["e"].(int64) {
